@@ -32,6 +32,9 @@ func (g *genCtx) phone(ver19 bool) []byte {
 		n = 10
 	}
 	b := make([]byte, n)
+	if g.r.chance(3) {
+		return b // the all-zero number
+	}
 	lead := g.r.intn(n) // some leading zero bytes
 	if g.r.chance(60) {
 		lead = g.r.intn(2)
@@ -164,7 +167,11 @@ func (g *genCtx) wellFormedBody(id uint16, ver19 bool, phone []byte) []byte {
 			}
 			b := []byte{byte(len(code))}
 			b = append(b, code...)
-			b = append(b, padStr("123456789012345", 15)...)
+			imei := "123456789012345"
+			if r.chance(25) {
+				imei = imei[:r.intn(15)] // a shorter identifier, zero-padded to the field's 15 bytes
+			}
+			b = append(b, padStr(imei, 15)...)
 			return append(b, padStr("v1.0", 20)...)
 		}
 		return code
@@ -190,6 +197,9 @@ func (g *genCtx) wellFormedBody(id uint16, ver19 bool, phone []byte) []byte {
 	case 0x0801:
 		b := r.bytes(8)
 		b = append(b, loc()...)
+		if r.chance(15) {
+			return b // exactly the 36 fixed bytes, no media data
+		}
 		return append(b, r.bytes(r.intn(40))...)
 	case 0x0104:
 		return append(r.bytes(2), 0)
